@@ -44,7 +44,8 @@ def quiet():
 # ----------------------------------------------------------------- certificates
 _KEY = None
 _CERTS = {}
-CN_SHAPES = {0: (), 1: ("alice",), 2: ("alice", "bob")}
+CN_SHAPES = {0: (), 1: ("alice",), 2: ("alice", "bob"), 3: ("adm", "admin")}
+ONE_RDN = {3}            # shapes whose common names sit in ONE multi-valued RDN (CN=adm+CN=admin)
 EKU_SHAPES = ("absent", "server", "client", "both")
 
 
@@ -55,17 +56,22 @@ def _key():
     return _KEY
 
 
-def make_cert(cns=("alice",), eku="client"):
-    """DER certificate with the given subject common names (in order) and extended key usage shape."""
-    k = (tuple(cns), eku)
+def make_cert(cns=("alice",), eku="client", serial=None, one_rdn=False):
+    """DER certificate with the given subject common names (in order) and extended key usage shape; `serial` forces
+    the serial number (two certificates of different issuers may carry the same one), `one_rdn` puts all common
+    names into one multi-valued RDN."""
+    k = (tuple(cns), eku, serial, one_rdn)
     if k in _CERTS:
         return _CERTS[k]
     key = _key()
     # one RDN per common name so that several CNs keep their order
-    name = x509.Name([x509.RelativeDistinguishedName([x509.NameAttribute(NameOID.COMMON_NAME, c)]) for c in cns]
-                     + [x509.RelativeDistinguishedName([x509.NameAttribute(NameOID.ORGANIZATION_NAME, "verif")])])
+    if one_rdn:
+        rdns = [x509.RelativeDistinguishedName([x509.NameAttribute(NameOID.COMMON_NAME, c) for c in cns])]
+    else:
+        rdns = [x509.RelativeDistinguishedName([x509.NameAttribute(NameOID.COMMON_NAME, c)]) for c in cns]
+    name = x509.Name(rdns + [x509.RelativeDistinguishedName([x509.NameAttribute(NameOID.ORGANIZATION_NAME, "verif")])])
     b = (x509.CertificateBuilder().subject_name(name).issuer_name(name).public_key(key.public_key())
-         .serial_number(1000 + len(_CERTS)).not_valid_before(datetime.datetime(2020, 1, 1))
+         .serial_number(serial if serial is not None else 1000 + len(_CERTS)).not_valid_before(datetime.datetime(2020, 1, 1))
          .not_valid_after(datetime.datetime(2040, 1, 1)))
     if eku == "client":
         b = b.add_extension(x509.ExtendedKeyUsage([ExtendedKeyUsageOID.CLIENT_AUTH]), False)
@@ -91,7 +97,7 @@ def cert_json(shape):
 def cert_der(shape):
     if shape is None:
         return None
-    return make_cert(CN_SHAPES[shape["cns"]], shape["eku"])
+    return make_cert(CN_SHAPES[shape["cns"]], shape["eku"], one_rdn=shape["cns"] in ONE_RDN)
 
 
 # ----------------------------------------------------------------- fake SLUGS
